@@ -332,9 +332,10 @@ def ack_effects(run, an, tk, prop, kinds):
             continue
         if any(re.match(r"ret \w+ err (Peer.InvalidPacket|Resource.PacketTooLarge|Resource.InflightExhausted)", e) for e in st.events):
             continue
-        # only the last acknowledgement for an id within a step is judged (several may be consumed)
-        later = [q for (w2, s2, q) in an.events if s2 == "S" and w2[0] == when[0] and w2 > when and q.get("id") == p.get("id")]
-        if later:
+        # several acknowledgements for one id consumed within one step (a duplicate, possibly with another
+        # reason code) are not judged: the state is only visible between steps
+        same = [q for (w2, s2, q) in an.events if s2 == "S" and w2[0] == when[0] and w2 != when and q.get("id") == p.get("id")]
+        if same:
             continue
         i = p.get("id")
         kind = None
